@@ -255,8 +255,29 @@ func c11Body(c *ev.Ctx) {
 			}
 		}
 	}
+	// extreme dimensions (deepest supported tree; a padded deletion batch larger than the tree): short chains
+	type xdim struct {
+		mode string
+		d, b int
+	}
+	extreme := []xdim{{"insertion", 32, 1}, {"deletion", 1, 3}}
+	if !quick {
+		extreme = append(extreme, xdim{"deletion", 31, 1}, xdim{"insertion", 1, 2}, xdim{"insertion", 31, 2})
+	}
+	for _, x := range extreme {
+		cases = append(cases, c11Case{x.mode, x.d, x.b, []string{"mem-compressed"}}, c11Case{x.mode, x.d, x.b, []string{"file-raw"}})
+	}
 	// setups first (sequentially per key, in parallel across keys)
 	var wg sync.WaitGroup
+	for _, x := range extreme {
+		wg.Add(1)
+		go func(x xdim) {
+			defer wg.Done()
+			if _, err := getSystem(x.mode, x.d, x.b, 0); err != nil {
+				c.HarnessError("setup: %v", err)
+			}
+		}(x)
+	}
 	for _, dm := range dims {
 		for _, mode := range []string{"insertion", "deletion"} {
 			for inst := 0; inst < 2; inst++ {
@@ -310,6 +331,6 @@ func c11Body(c *ev.Ctx) {
 	c.Set("proofs_generated", st.proofs)
 	c.Set("cross_verifications", st.crossVerifies)
 	c.Set("independent_setup_rejects_foreign_proof", st.foreignRejected)
-	c.Set("rule", "chains of length <=2 (<=3 thorough) over {write compressed, write raw} x {in memory + UnsafeReadFrom, file + ReadSystemFromFile} and the CLI convert-to-raw (to another file, in place, and onto an existing output file), from a fresh setup of each mode at dims with depth != batch; every reached system must have equal dimensions, re-serialise to the same bytes as the original, prove a valid batch that the original verifies and verify the original's proof; distinct = chains whose end state passed all comparisons")
+	c.Set("rule", "chains of length <=2 (<=3 thorough) over {write compressed, write raw} x {in memory + UnsafeReadFrom, file + ReadSystemFromFile} and the CLI convert-to-raw (to another file, in place, and onto an existing output file), from a fresh setup of each mode at dims with depth != batch, plus short chains at extreme dimensions (insertion depth 32, a padded deletion batch of 3 on a 2-leaf tree); every reached system must have equal dimensions, re-serialise to the same bytes as the original, prove a valid batch that the original verifies and verify the original's proof; distinct = chains whose end state passed all comparisons")
 	c.Assume("byte-equality of the raw re-serialisation stands for equality of proving key, verifying key and constraint system")
 }
